@@ -12,7 +12,7 @@ from .. import ref, docs
 PROPERTY = 'C08'
 LEVEL = 'exploration'
 RULE = ('documents generated from the reference grammar (schema-valid by construction, certified by the reference '
-        'validator), built through the API in document order with Python values typed from the reference model: (i) whole '
+        'validator), built through the API in document order with Python values typed from the reference model, half of them with markup characters (& < > quotes) in string-typed attribute values and text: (i) whole '
         'score-partwise documents written with write(); (ii) for every element name, small documents rooted at that '
         'element, written as declaration + to_string(). Each is parsed back with parse_musicxml, re-serialised, compared as '
         'an infoset (decimal spelling of decimal-typed content is the only tolerated difference), round-tripped a second '
@@ -138,6 +138,30 @@ def check_doc(et_doc, lib, tmp, use_write, viol, c, obj=None):
     return 'violated' if bad else 'ok'
 
 
+MARKUP = ['a&b', 'x<y', 'p>q', 'say "hi"', "it's", 'https://example.org/i.png?id=7&size=2', '&amp;', '<![CDATA[x]]>', 'a & b < c']
+
+
+def spice(el, rnd, p=0.35):
+    """markup characters in string-typed attribute values and text (what a writer must escape exactly once)"""
+    n = 0
+    for node in el.iter():
+        t = ref.eltype(node.tag)
+        if t in ref.ALL:
+            for an, at, req in ref.attr_table(t):
+                if an in node.attrib and at is not None and rnd.random() < p:
+                    v = rnd.choice(MARKUP)
+                    if ref.valid(at, v) and v == ' '.join(v.split()):
+                        node.set(an, v)
+                        n += 1
+        sb = (ref.simple_base(t) if t in ref.ALL else t)
+        if sb and not len(node) and rnd.random() < p:
+            v = rnd.choice(MARKUP)
+            if ref.valid(sb, v):
+                node.text = v
+                n += 1
+    return n
+
+
 ALPHABETS = {'greek': '\u03b1\u03b2\u03b3\u03b4\u03b5\u03b6\u03b7\u03b8', 'cjk': '\u97f3\u697d\u8b5c\u8868\u8a18\u6cd5',
              'emoji': '\U0001d11e\U0001d122\U0001f3b5\U0001f3b6', 'mixed': 'a\u00e9\u97f3\U0001d11e-\u03b2z'}
 
@@ -190,6 +214,8 @@ def run_shard(shard, tier, seed):
             for k in range(per):
                 depth = (ref.HEIGHT[n] or 0) + rnd.choice([1, 2, 3])
                 el = ref.gen_el(n, rnd, depth, {'pattr': rnd.choice([0.2, 0.5, 0.9]), 'maxkids': rnd.choice([3, 6])})
+                if k % 2:
+                    c['markup_values_placed'] += spice(el, rnd)
                 if ref.validate_doc(el):
                     c['generator_produced_invalid'] += 1
                     continue
@@ -211,6 +237,7 @@ def run_shard(shard, tier, seed):
                                                                           'skip_attrs': ('xml:lang', 'xml:space', 'name'),
                                                                           'skip_elements': ('link', 'opus', 'part-link',
                                                                                             'miscellaneous-field')})
+            c['markup_values_placed'] += spice(el, rnd, 0.2)
             if ref.validate_doc(el):
                 c['generator_produced_invalid'] += 1
                 continue
